@@ -3,7 +3,6 @@
 
 import itertools
 import math
-import os
 
 import numpy as np
 from hypothesis import strategies as st
@@ -14,7 +13,7 @@ from trimesh import convex as tc
 from trimesh import nsphere as tn
 from trimesh import primitives as tp
 
-from ..core import ASSUMPTIONS, REQUIRED_CLASSES, RULES, Violation, body, check, subcheck
+from ..core import ASSUMPTIONS, REQUIRED_CLASSES, RULES, Violation, body, subcheck
 from ..gen import c16_points as G
 from ..gen import meshes as GM
 from ..oracle.c16_welzl import miniball
@@ -22,23 +21,31 @@ from ..oracle.c16_welzl import miniball
 EPS = float(np.finfo(np.float64).eps)
 
 RULES["C16"] = (
-    "Point sets of 4..300 points in 2-D and 3-D built as base shape x flattening x rotation x scale x offset: gaussian, "
-    "uniform, integer-lattice subsets and lattice cube shells (coplanar/cocircular ties, duplicates), tight clusters with "
-    "outliers, cospherical points and spherical caps, small explicit sets drawn coordinate by coordinate; one axis scaled by "
-    "1e-3..1e-6 (still spanning the full dimension), random rotation, scale 1e-3..1e6, offset 0/1/1e3/1e6; the same sets "
-    "wrapped in PointCloud, and closed template meshes (vf/gen/meshes.py) under the same placements; all subsets of the "
-    "2x2x2 cube corners and of the 3x3 planar grid are enumerated. Oracles: own face-plane test of every input point "
-    "against every hull face, own rigidity / containment / tightness tests of boxes, spheres and cylinders in float64 with "
-    "derived tolerances, own Welzl minimal ball with optimality certificate. Non-trivial: at least 5 distinct points "
-    "spanning the full dimension with at least one point that is not a vertex of the hull / not on the bounding volume."
+    "Point sets of 4..300 points (3..9 in the enumerations) in 2-D and 3-D built as base shape x flattening x rotation x "
+    "scale x offset: gaussian, uniform, integer-lattice subsets and lattice cube shells (coplanar/collinear/cocircular ties, "
+    "duplicates), tight clusters with outliers, cospherical points and spherical caps, small explicit sets drawn coordinate "
+    "by coordinate; one axis scaled by 1e-3..1e-6 (still spanning the full dimension), random rotation, scale 1e-3..1e6, "
+    "offset 0/1/1e3/1e6; the same sets wrapped in PointCloud; closed template meshes (vf/gen/meshes.py) under the same "
+    "placements; 2-D sets embedded exactly in an axis plane of 3-D (class planar3, boxes only); all subsets of the 2x2x2 cube "
+    "corners, of the 3x3 planar grid and of that grid embedded in two axis planes are enumerated. Oracles: own face-plane "
+    "test of every input point against every hull face plus exact vertex membership, own rigidity / containment / tightness / "
+    "centring tests of boxes, spheres and cylinders in float64 with derived tolerances, own Welzl minimal ball with an "
+    "optimality certificate, own dict-based adjacent-face projection for is_convex. Non-trivial: at least 5 distinct points "
+    "spanning the full dimension with at least one point that is not a vertex of the hull / strictly inside the volume."
 )
 ASSUMPTIONS["C16"] = [
     "scipy.spatial.ConvexHull / Voronoi (qhull) are trusted to terminate; their output is checked, not assumed",
     "a set 'spans d dimensions' when the smallest singular value of the centred set is >= 1e-9 of the largest and "
     ">= 1e4 ulp of the largest coordinate magnitude; other sets are outside the hull/sphere/cylinder domain and skipped "
     "(they are counted in the class histogram)",
-    "sets whose smallest extent is below 100*tol.merge (1e-6 absolute) are not generated: trimesh documents absolute "
-    "tolerances tol.merge=1e-8 / tol.zero=1e-13 below which vertices and faces are treated as coincident / degenerate",
+    "trimesh documents the absolute tol.merge=1e-8 below which two vertices are one vertex (convex_hull builds its result "
+    "with Trimesh(process=True)): sets with two distinct points closer than 2e-8 are skipped, and flattened sets are not "
+    "also scaled down, so that the thickness of a generated set stays above ~1e-7",
+    "exactly coplanar 3-D input (class planar3, tested in-tree by test_obb_coplanar_points) makes convex_hull fall back to "
+    "qhull 'QJ' (joggled input, seeded from the clock inside qhull): boxes of that class get an extra allowance of "
+    "1.2e6*eps*M (qh_JOGGLEdefault=30000 x DISTround) and the outcome of such a case may differ between two runs",
+    "transformations.transform_points / Trimesh.apply_transform document an identity shortcut (matrix within 1e-8 of I is not "
+    "applied): boxes and cylinders whose returned rotation is within 2e-8 of a signed permutation get 3e-8*M+1e-8",
     "distance of a point to the plane of a hull face is judged with a tolerance proportional to diam/h_f (h_f smallest "
     "height of the face): qhull bounds the distance to its merged facets, not to the triangles of their 'Qt' triangulation",
     "minimality of the sphere is only demanded for general-position sets: Welzl certificate found, exactly d+1 or fewer "
@@ -46,24 +53,11 @@ ASSUMPTIONS["C16"] = [
     "Trimesh.bounds documents that only referenced vertices count; pool meshes have no unreferenced vertices",
 ]
 
-# ------------------------------------------------------------------------------------------------
-# development aid: when C16_PROBE is set, failed clauses are collected instead of raised (never set by ./check)
-_PROBE = [] if os.environ.get("C16_PROBE") else None
-
-
 def chk(cond, sig, msg=""):
+    """like core.check, but the signature may be computed lazily (some classes are only worked out on failure)"""
     if cond:
         return
-    sig = sig() if callable(sig) else sig
-    m = msg() if callable(msg) else msg
-    if _PROBE is not None:
-        _PROBE.append((sig, m))
-        return
-    raise Violation(sig, m)
-
-
-class Raised(Exception):
-    pass
+    raise Violation(sig() if callable(sig) else sig, msg() if callable(msg) else msg)
 
 
 def guarded(fn, sig_prefix, who):
@@ -77,9 +71,6 @@ def guarded(fn, sig_prefix, who):
     except QhullError as e:
         txt = str(e).strip()
         code = txt.split()[0] if txt.startswith("QH") else "QH?"
-        if _PROBE is not None:
-            _PROBE.append((f"{sig_prefix}|raises_QhullError|{code}|{who}", txt[:200]))
-            raise Raised()
         raise Violation(f"{sig_prefix}|raises_QhullError|{code}|{who}", txt[:300])
 
 
@@ -108,8 +99,15 @@ class PS:
         self.spanning = bool(
             len(self.U) >= self.d + 1 and s[0] > 0 and self.thick >= 1e-9 * s[0] and self.thick >= 1e4 * EPS * self.M
         )
-        # smallest extent in absolute units (library absolute tolerances, see ASSUMPTIONS)
-        self.above_abs_tol = bool(self.thick >= 1e-6)
+        # closest pair of distinct points, in absolute units: trimesh merges vertices closer than the documented
+        # absolute tol.merge = 1e-8 (Trimesh(process=True) in convex_hull); such sets are outside the domain
+        if len(self.U) > 1:
+            from scipy.spatial import cKDTree
+
+            self.min_gap = float(cKDTree(self.U).query(self.U, k=2)[0][:, 1].min())
+        else:
+            self.min_gap = 0.0
+        self.above_merge_tol = bool(self.min_gap >= 2e-8)
 
     # tolerance for "point within a bounding volume computed from the hull vertices":
     #   64 ulp of the coordinate magnitude  (a handful of float64 matrix products / un-normalisations of
@@ -135,7 +133,7 @@ def scale_classes(spec, ps):
 
 
 def in_generated_domain(ps):
-    return ps.spanning
+    return ps.spanning and ps.above_merge_tol
 
 
 def rigid_clause(T, d, sigbase, who):
@@ -361,7 +359,8 @@ def b_hull(case, ctx):
         hp = np.asarray(tc.hull_points(P.copy()))
         inp = {r.tobytes() for r in (P + 0.0)}
         chk(all(r.tobytes() in inp for r in (hp + 0.0)), "C16.hull|hull_points|subset", "hull_points returned a point that is not an input point")
-        chk(np.array_equal(hp.min(axis=0), ps.lo) and np.array_equal(hp.max(axis=0), ps.hi), "C16.hull|hull_points|bounds", "hull_points does not reach the extreme coordinates of the input")
+        # (a point that ties for an extreme coordinate within qhull's round-off may be dropped as coplanar: ps.tol)
+        chk(float(np.abs(hp.min(axis=0) - ps.lo).max()) <= ps.tol and float(np.abs(hp.max(axis=0) - ps.hi).max()) <= ps.tol, "C16.hull|hull_points|bounds", "hull_points does not reach the extreme coordinates of the input")
     ctx.note(
         nontrivial=len(ps.U) >= 5 and info["interior"],
         cls=["hull:" + lab, "hull:src=" + src] + ["hull:" + c for c in scale_classes(spec_of(case), ps)] + (["hull:all_faces_illconditioned"] if info["well_conditioned_faces"] == 0 else []),
@@ -428,9 +427,6 @@ def obb_guarded(fn, ps, who):
     coplanar = bool(ps.d == 3 and ps.thick <= 1e-9 * max(ps.sv[0], 1e-300))
 
     def out(sig, msg):
-        if _PROBE is not None:
-            _PROBE.append((sig, msg))
-            raise Raised()
         raise Violation(sig, msg)
 
     try:
@@ -660,8 +656,8 @@ def b_cylinder(case, ctx):
 @st.composite
 def pts_case(draw, d=3, srcs=("points", "cloud"), nmax=300):
     spec = draw(G.point_spec(d=d, nmax=nmax))
-    # keep the smallest extent above the library's absolute tolerances (ASSUMPTIONS): flat sets are not
-    # also shrunk
+    # flat sets are not also shrunk: a set 1e-6 thin at scale 1e-3 has distinct vertices closer than the documented
+    # absolute tol.merge=1e-8, which trimesh treats as one vertex (ASSUMPTIONS)
     if spec.get("flat") and spec.get("scale", 1.0) < 1.0:
         spec["scale"] = 1.0
     return {"src": draw(st.sampled_from(list(srcs))) if d == 3 else "points", "spec": spec}
